@@ -18,6 +18,7 @@ META = {
     "note": "Trusted: TLC, the transcription of the parallel phase in ParallelLoad.tla, hook H1 (src/verif_hooks.rs, 40 lines, compiled only with --cfg lopdf_verif), "
             "the FNV digest of the projection. Real thread schedules are sampled; the order in which blocks reach the merge is enumerated exhaustively for n <= 6.",
     "bins": ["c02", "c08"],
+    "seq_bins": ['c08seq'],
     "modules": ["MC_ParallelLoad.tla", "Trace_ParallelLoad.tla", "Gen_File.tla"],
     "design_ref": "DESIGN.md section 4 C08",
 }
